@@ -1,4 +1,5 @@
 import GoSSE.Proofs.GenEquivQueue
+import GoSSE.Proofs.GenEquivReplay
 import GoSSE.Proofs.GenEquiv
 import GoSSE.Proofs.QueueFinite
 /-!
@@ -299,5 +300,80 @@ well-formed state: `wf_preserved`). -/
 theorem translated_enqueue_is_model (fuel : Nat) (q : Queue) (v : Entry) :
     GenEquiv.Agrees (Gen.queue_enqueue fuel (GenEquiv.toGen q) (some v)) (Queue.enqueue q v) :=
   GenEquiv.enqueue_eq fuel q v
+
+
+/-! #### `FiniteReplayer` itself, as translated
+
+`GoSSE/Gen/Replay.lean` holds `ensureID`, `queue.each` (an iterator: a function of what the function literal it is
+applied to does with its state), `findIDInQueue` (generic, with the method `ID()` of its type parameter as a
+dictionary), `NewFiniteReplayer`, `FiniteReplayer.Put` and `FiniteReplayer.Replay` as translated from replay.go.
+A model replayer `f` is represented by `toGenFin mk f`: counters cast, every slot mapped — the zero slot to the zero
+value, an entry `e` to the message `mk e` with `e`'s topics; `mk` is any assignment of messages to entries that
+carries the entry's ID (`CarriesID`). The subscriber is any `MessageWriter`; the model's one (`failAt`-th Send
+fails, Flush may) is `recW`, whose state is the list of calls it saw. -/
+
+/-- a message assignment that meets `CarriesID`: the hypotheses below are satisfiable -/
+def mk0 (e : Entry) : Gen.Message :=
+  { chunks := [{ content := [109], isComment := false }], ID := GenEquiv.genID e.id,
+    Type' := { messageField := { value := [], set := false } }, Retry := 0 }
+example : GenEquiv.CarriesID mk0 := fun _ => rfl
+
+/-- `ensureID` as translated: the model's verdict; with automatic IDs the result differs from the caller's message
+in its ID only (the caller's message is an input, nothing is written back to it — C19), and the counter moves on by
+one (`cur + 1 < 2^64`: wrap-around is out of scope, as in the model). -/
+theorem translated_ensureID_is_model (fuel : Nat) (m : Gen.Message) (id : EventID) (hm : m.ID = GenEquiv.genID id)
+    (cur : Option Nat) (hc : ∀ c, cur = some c → c + 1 < 18446744073709551616)
+    (hf : ∀ c, cur = some c → (fmtUint c).length < fuel) :
+    Gen.ensureID fuel m (GenEquiv.genCur cur) =
+      match Model.ensureID id cur with
+      | .error e => .ok (none, some (GenEquiv.putErrStr e), GenEquiv.genCur cur)
+      | .ok (id', cur') => .ok (some { m with ID := GenEquiv.genID id' }, none, GenEquiv.genCur cur') :=
+  GenEquiv.ensureID_eq fuel m id hm cur hc hf
+
+/-- `queue.each` as translated, applied to any function literal that agrees with a callback of the model on the
+buffer's slots (under an invariant `P` of the callback's state): the model's final state, the queue untouched, a
+panic exactly where the model has one. -/
+theorem translated_each_is_model {T κ σ : Type} [Inhabited T] (P : σ → Prop) (g : Slot → T) (r : σ → κ)
+    (yield : Int → T → κ → GoRT.GoM (Bool × κ)) (f : σ → Nat → Slot → QRes (σ × Bool)) (q : Queue)
+    (hy : GenEquiv.YieldAgrees q.buf P g r yield f) (startAt : Nat) (s : σ) (hP : P s) (fuel : Nat)
+    (hf : q.tail + q.buf.length + 1 < fuel) :
+    GenEquiv.AgreesV (fun s' => (GenEquiv.toGenQ g q, r s'))
+      (Gen.queue_each fuel (GenEquiv.toGenQ g q) (startAt : Int) yield (r s)) (Queue.each q startAt f s) :=
+  GenEquiv.each_eq P g r yield f q hy startAt s hP fuel hf
+
+/-- `findIDInQueue` as translated (uint64 arithmetic modulo 2^64, `int`↔`uint64` conversions as Go defines them):
+the model's index for every queue state — well-formed or not —, every presented ID and both ID modes. -/
+theorem translated_findIDInQueue_is_model {T : Type} [Inhabited T] (g : Slot → T) (M_ID : Nat → T → GoRT.GoM Gen.EventID)
+    (hid : GenEquiv.IDAgrees g M_ID) (q : Queue) (id : EventID) (auto : Bool) (fuel : Nat)
+    (hf : q.tail + q.buf.length + 1 < fuel) (hcount : q.count < 9223372036854775808) :
+    GenEquiv.AgreesV (fun i => (i, GenEquiv.toGenQ g q))
+      (Gen.findIDInQueue fuel M_ID (GenEquiv.toGenQ g q) (GenEquiv.genID id) auto) (Model.findIDInQueue q id auto) :=
+  GenEquiv.findIDInQueue_eq g M_ID hid q id auto fuel hf hcount
+
+theorem translated_NewFiniteReplayer_is_model (mk : Entry → Gen.Message) (fuel : Nat) (count : Nat) (auto : Bool) :
+    Gen.NewFiniteReplayer fuel (count : Int) auto = .ok (match newFinite count auto with
+      | none => (none, some "count must be at least 2")
+      | some f => (some (GenEquiv.toGenFin mk f), none)) :=
+  GenEquiv.newFinite_eq mk fuel count auto
+
+/-- `FiniteReplayer.Put` as translated: from every replayer state, for the caller's message `m` (tag `k`, ID `id`)
+— the model's verdict, the model's stored entry (as the message `mk` assigns to it) and the model's next state. -/
+theorem translated_FinitePut_is_model (mk : Entry → Gen.Message) (f : Finite) (k : Nat) (id : EventID) (topics : List Bytes)
+    (m : Gen.Message) (hm : m.ID = GenEquiv.genID id)
+    (hmk : ∀ id', mk { msg := k, id := id', topics := topics, exp := 0 } = { m with ID := GenEquiv.genID id' })
+    (hc : ∀ c, f.currentID = some c → c + 1 < 18446744073709551616) (fuel : Nat)
+    (hf : ∀ c, f.currentID = some c → (fmtUint c).length < fuel) :
+    GenEquiv.PutAgrees mk (GenEquiv.toGenFin mk) (Finite.put f k id topics)
+      (Gen.FiniteReplayer_Put fuel (GenEquiv.toGenFin mk f) (some m) topics) :=
+  GenEquiv.finitePut_eq mk f k id topics m hm hmk hc fuel hf
+
+/-- `FiniteReplayer.Replay` as translated, with the model's subscriber: it sees the model's calls in the model's
+order, `Replay` returns the model's error, the replayer is unchanged. -/
+theorem translated_FiniteReplay_is_model (mk : Entry → Gen.Message) (hmk : GenEquiv.CarriesID mk) (f : Finite) (sub : Sub)
+    (fuel : Nat) (hf : f.buf.tail + f.buf.buf.length + 1 < fuel) (hcount : f.buf.count < 9223372036854775808)
+    (hft : GenEquiv.TopicsFuel fuel f.buf.buf sub) :
+    GenEquiv.ReplayAgrees mk sub (GenEquiv.toGenFin mk f) (Finite.replay f sub)
+      (Gen.FiniteReplayer_Replay fuel (GenEquiv.toGenFin mk f) (GenEquiv.gSub sub [])) :=
+  GenEquiv.finiteReplay_eq mk hmk f sub fuel hf hcount hft
 
 end GoSSE.Props.C08
